@@ -1,7 +1,7 @@
 (* C12 — strongly connected components are computed exactly (graph.py compute_SCCs).
    Theorem only; the proof (invariant of the Nuutila/Tarjan DFS, by induction on fuel with
    an inner induction over successor lists) is in Proofs/SccP.v. *)
-From PMC Require Import Spec.Lemmas Proofs.SccP.
+From PMC Require Import Spec.Lemmas Model.SccLoop Proofs.SccP Proofs.SccLoopP.
 From PMC Require Proofs.GraphP.
 
 (* for EVERY well-formed digraph: the yielded lists are pairwise disjoint, cover exactly the
@@ -17,6 +17,17 @@ Print Assumptions C12_exact.
 Theorem C12_on_constructed_graphs : forall V E, scc_spec (mk_graph V E) (compute_SCCs (mk_graph V E)).
 Proof. intros V E. apply scc_correct. apply PMC.Proofs.GraphP.mk_graph_spec. Qed.
 Print Assumptions C12_on_constructed_graphs.
+
+(* the code is NOT recursive: it runs a `while stack:` loop over an explicit stack of
+   [node, iterator] frames.  Model/SccLoop.v is a small-step model of exactly that loop, and it
+   computes the SAME list (same components, same order) as the recursive model above *)
+Theorem C12_loop_is_recursion : forall g, wf_graph g -> compute_SCCs_loop g = compute_SCCs g.
+Proof. exact compute_SCCs_loop_eq. Qed.
+Print Assumptions C12_loop_is_recursion.
+
+Theorem C12_loop_exact : forall g, wf_graph g -> scc_spec g (compute_SCCs_loop g).
+Proof. exact scc_loop_correct. Qed.
+Print Assumptions C12_loop_exact.
 
 (* non-vacuity: a graph with a 2-cycle, a self loop and a trivial component *)
 Example C12_example :
